@@ -45,7 +45,9 @@ var c15Placements = []string{"in-a-submodule", "direct", "grouping-local", "grou
 	"grouping-through-grouping-of-a-third-module",
 	// a refine in the using module adds a must whose text the refined leaf of the grouping carries already: two
 	// statements, each read in the module in which it is written
-	"must-by-refine-repeating-the-must-of-the-grouping"}
+	"must-by-refine-repeating-the-must-of-the-grouping",
+	// a when on a uses that stands directly in an augment with a when of its own: the nodes carry both
+	"when-on-uses-inside-an-augment-with-a-when"}
 var c15Stmts = []string{"must", "when", "path"}
 var c15PrefixUses = []string{"none", "own", "imported-by-definer-only", "imported-by-user-only", "same-prefix-different-modules", "undeclared", "same-prefix-in-included-submodule"}
 
@@ -122,7 +124,7 @@ func c15Build(placement, stmt, pu string, ex c15Expr, custom string) *c15Case {
 		return nil // (the writer is a submodule itself)
 	}
 	switch placement {
-	case "when-on-uses-of-foreign-grouping", "when-on-augment-of-other-module":
+	case "when-on-uses-of-foreign-grouping", "when-on-augment-of-other-module", "when-on-uses-inside-an-augment-with-a-when":
 		if stmt != "when" {
 			return nil
 		}
@@ -158,7 +160,7 @@ func c15Build(placement, stmt, pu string, ex c15Expr, custom string) *c15Case {
 		writer = yang.S("module", "c15-aug", yang.S("namespace", nsAug), yang.S("prefix", "a"))
 		writerNS = nsAug
 		other = nil
-	case "when-on-augment-of-other-module", "must-by-deviate-add-from-other-module":
+	case "when-on-augment-of-other-module", "must-by-deviate-add-from-other-module", "when-on-uses-inside-an-augment-with-a-when":
 		writer = yang.S("module", "c15-aug", yang.S("namespace", nsAug), yang.S("prefix", "a"))
 		writerNS = nsAug
 		other = use
@@ -320,6 +322,13 @@ func c15Build(placement, stmt, pu string, ex c15Expr, custom string) *c15Case {
 		def.Add(yang.S("grouping", "g", yang.S("leaf", "carrier", yang.S("type", "string"), yang.S("must", c.exprText, yang.S("error-message", "c15 must of the grouping")))))
 		imp(use, "c15-def", "d")
 		useTop.Add(yang.S("uses", "d:g", yang.S("refine", "carrier", yang.S("must", c.exprText, yang.S("error-message", "c15 must")))))
+		c.mustCount = 2
+	case "when-on-uses-inside-an-augment-with-a-when":
+		def.Add(yang.S("grouping", "g", yang.S("leaf", "carrier", yang.S("type", "string"))))
+		imp(writer, "c15-use", "uu")
+		imp(writer, "c15-def", "dd")
+		writer.Add(yang.S("augment", "/uu:top-use", yang.S("when", "uu:name != 'off'"), yang.S("uses", "dd:g", yang.S("when", c.exprText))))
+		mods = append(mods, writer)
 		c.mustCount = 2
 	case "when-on-augment-of-other-module":
 		imp(writer, "c15-use", "uu")
@@ -506,10 +515,13 @@ func (p *c15) checkMachine(c *c15Case, cr compileResult, leafPath []string, expe
 				node = node.Child(step)
 			}
 			n = len(node.Musts())
+			if c.stmt == "when" {
+				n = len(node.Whens())
+			}
 		})
 		resp.Ev("carriers_with_several_musts", 1)
 		if n != c.mustCount {
-			resp.Fail("C15/must-lost-or-duplicated/"+cls, input, fmt.Sprintf("the carrier has %d must statements after the refine, %d were written (one in the grouping, one in the refine)", n, c.mustCount))
+			resp.Fail("C15/must-lost-or-duplicated/"+cls, input, fmt.Sprintf("the carrier has %d %s statements, %d were written for it", n, c.stmt, c.mustCount))
 			return
 		}
 		var firstFail *core.CaseResult
@@ -551,7 +563,7 @@ func (p *c15) checkMachineAt(c *c15Case, cr compileResult, leafPath []string, ex
 			m := node.Musts()[which]
 			listing, gotExpr = m.Mach.PrintMachine(), m.Mach.GetExpr()
 		case "when":
-			w := node.Whens()[0]
+			w := node.Whens()[which]
 			listing, gotExpr = w.Mach.PrintMachine(), w.Mach.GetExpr()
 		case "path":
 			lr := node.Type().(schema.Leafref)
